@@ -18,8 +18,8 @@ _SYS_TB = ["net/http server framing and request parsing, net/http ServeMux (not 
 p = _ensure("C01", "Requests are routed by the first matching enabled rule, in file order")
 p["modules"] += ["RrProofs.Props.C01Exec"]
 p["theorems"] += [
-    T("Props.C01Exec.no_match_404", "full", "no proxy match ⇒ for every retry chain, copy behaviour and fault script the result is userError 404 and only the copy rule's host is contacted (given the copy request itself can be built)"),
-    T("Props.C01Exec.routeOnce_no_proxy", "full", "one pass without proxy match never yields a main response; verdict ∈ {404, plain error, copy build error}"),
+    T("Props.C01Exec.no_match_404", "full", "no proxy match ⇒ for every retry chain, copy behaviour and fault script the result is userError 404 and only the copy rule's host is contacted — whether or not the copy request can be built (after the fix: commit for C20-a a copy request that cannot be built is dropped); excluded only: a copy target that does not parse and the secrets[0] run-time panic"),
+    T("Props.C01Exec.routeOnce_no_proxy", "full", "one pass without proxy match never yields a main response; verdict ∈ {404, plain error (unparsable copy target), secrets[0] panic while building the copy request}"),
 ]
 p["streams"] += [S("sysu", 3000, 40000)]
 p["rule"] += _SYS_RULE
@@ -48,6 +48,7 @@ p["theorems"] += [
     T("Props.C05.mirror_plain", "full", "uncached rule, origin body complete: the client view is the origin's status and complete body (none for HEAD), framed complete"),
     T("Props.C05.broken_body_is_cut_short", "full", "an origin body with declared length that breaks off is never re-framed as complete"),
     T("Props.C05.route_outcome", "full", "exactly one outcome for every rule pair, retry chain of any depth and fault script: a scripted origin's answer, user error 404/407/502, the bare 500, or the secrets[0] panic"),
+    T("Props.C05.routeOnce_done_main_builds", "full", "a pass whose MAIN request can be built (or that has none) decides by itself only the 404, the plain error of an unparsable target, or the secrets[0] panic: a 407 is never the copy request's (after the fix: commit for C20-a)"),
     T("Props.C05.self_errors_wellformed", "full", "every self-made answer on this path has an error status (>= 400) from the pinned CreateError codes, or is the bare 500"),
     T("Props.C05.selfCodes_pinned", "full", "404, 407, 502 are among the codes pinned from usererror (Spec.userErrorCodes)"),
 ]
@@ -60,15 +61,18 @@ p["assumptions"] += ["slice S1 only (rules without cache): cached paths are cove
 p["full_statement_status"] = "uncached slice: oracle-checked on the implementation + executor theorems; cached slices pending; fails for non-canonical paths (finding C05-c)"
 
 p = _ensure("C20", "Traffic copying is invisible to the client")
-p["streams"] += [S("sysu", 3000, 40000)]
-p["rule"] += _SYS_RULE + "; oracle: client response with copy rules == without (two-run non-interference), copy contact intact (C03 oracle)"
+p["streams"] += [S("sysu", 3000, 40000), S("kf.C20-a", 2, 2, 1)]
+p["rule"] += _SYS_RULE + "; oracle: client response with copy rules == without (two-run non-interference), copy contact intact (C03 oracle); kf.C20-a: the two witness requests of the repaired finding C20-a (external proxy rule + internal copy rule + client Richie-Request-ID / Richie-Originating-IP without a secret) as regression cases that must pass"
 p["trusted_base"] += _SYS_TB
-p["full_statement_status"] = "choice clause proved; copy contact equality via C03Exec (copyStage); invisibility proved on the executor model for every copy rule whose request can be built and whose host is not also a main/fallback host (Props.C20Exec.copy_invisible, ..._contacts); fails when only the copy request cannot be built (finding C20-a; Props.C20Exec.copy_build_error_visible is the model-level witness)"
+p["full_statement_status"] = ("choice clause proved; copy contact equality via C03Exec (copyStage); invisibility proved on the executor model for every copy rule whose host is not also a main/fallback host "
+                              "(Props.C20Exec.copy_invisible, ..._contacts) — after the fix: commit for C20-a no longer restricted to copy requests that can be built (a copy request that cannot be built is logged and dropped; "
+                              "the former witness configuration is now an example of equality). Remaining hypotheses of Separate besides host separateness: the copy target parses (createOutgoingURLs, not part of C20-a) and "
+                              "building the copy request does not hit the Go run-time panic secrets[0] on an empty non-nil secret list (no error value; not produced by any accepted configuration: RoutingSecrets is nil or non-empty)")
 p["modules"] += ["RrProofs.Props.C03Exec", "RrProofs.Props.C20Exec"]
 p["theorems"] += [T("Props.C03Exec.routeOnce_intact", "full", "the copy destination receives the same method and body as the proxy destination (copyStage)"),
-    T("Props.C20Exec.copy_invisible", "partial", "CopyInvisible: for every configuration, fault script, retry count, retry chain, method and body: the routing result with the copy rule equals the result without it, provided the copy request can be built and the copy host is no main/fallback host (Separate)"),
+    T("Props.C20Exec.copy_invisible", "partial", "CopyInvisible: for every configuration, fault script, retry count, retry chain, method and body, and whether or not the copy request can be built: the routing result with the copy rule equals the result without it, provided the copy host is no main/fallback host, the copy target parses and building the copy request does not panic at secrets[0] (Separate; the class of the repaired finding C20-a is no longer excluded)"),
     T("Props.C20Exec.copy_invisible_contacts", "partial", "CopyInvisibleContacts: under Separate the contacts of all other hosts (what each origin received, in order) are the same with and without the copy rule"),
-    T("Props.C20Exec.copy_build_error_visible", "witness", "model-level witness of finding C20-a: a copy rule whose request cannot be built turns the client's 200 into 407"),
+    T("Props.C20Exec.routeOnce_copy", "full", "one pass with the copy rule against one pass without it: same stage result whether the copy request is built (performed first, outcome only logged) or not (dropped)"),
 ]
 
 p = _ensure("C04", "Routing-secret firewall between internal and external destinations")
